@@ -279,6 +279,31 @@ def execute_plan(ctx, W, S, plan, lines, allow, cfg, ops):
                 except Exception:
                     pass
             direct(ctx, op, st, kind, want, c)
+            if kind == "valid" and not isinstance(W, C.FixtureWorld) and ops.chance(1, 3):
+                # history: an object is added in place to the table the operator was given; the used operator is applied
+                # again and must produce the successor over the objects as they are NOW
+                types = [ty for ty in W.D["types"] if ty not in W.D.get("implicit_types", ())]
+                ty = ops.pick(types) if types else None
+                objs2 = {**W.objs, "znew": ty}
+                act = W.action(c[0])
+                try:
+                    grown = ty is not None and interp.applicable(cur, act, c[1], W.D, objs2)
+                    want2 = interp.successor(cur, act, c[1], W.D, objs2)[0] if grown else None
+                except (interp.Inconsistent, interp.Undefined):
+                    grown = False
+                if grown:
+                    from pddl_plus_parser.models import PDDLObject
+                    pp.objects["znew"] = PDDLObject(name="znew", type=dd.types[ty])
+                    site2 = "Operator.apply (used operator, an object was added to problem.objects)"
+                    try:
+                        r2 = op.apply(C.lib_world(ctx, W, cur, tag=f"-g{i}")[2])
+                    except Exception as e:
+                        raise Violation("C04/applicable-action-refused", site2, f"{C.fmt_call(*c)}: {type(e).__name__}: {e}")
+                    got2 = C.abs_state(r2, site2, ID)
+                    if not interp.state_eq(got2, want2):
+                        raise Violation("C04/step-successor-differs", site2,
+                                        f"{C.fmt_call(*c)} after znew - {ty} was added: {interp.state_diff(got2, want2)}")
+                    ctx.probes["direct_after_object_added"] += 1
         cur = want if kind == "valid" else (cur if (kind == "invalid" and not allow) else None)
     ctx.steps += len(plan)
 
